@@ -361,3 +361,24 @@ Example C13_self_closing_keep_example :
   Some (STR "ab  cd", [(STR "pause", 2, 0)]%Z)
   /\ ((Z.of_nat (length (STR "ab")) =? 0)%Z || is_space (TR.lastr (STR "ab") 0%N) = false).
 Proof. split; vm_compute; reflexivity. Qed.
+
+(* a property trimwhitespace=false switches the rule off: nothing is swallowed, wherever the marker stands *)
+Theorem C13_self_closing_trimwhitespace_false : forall n ps a b,
+  P.name_ok n -> Forall P.prop_ok ps -> get_prop (P.pvalues ps) (STR "trimwhitespace") = Some (MBool false) ->
+  str_eqb n (STR "character") = false ->
+  forallb plain_rune a = true -> forallb plain_rune b = true ->
+  forallb CP.no_colon a = true -> forallb CP.no_colon b = true ->
+  P.no_edge_space (a ++ b) ->
+  exists src, parse_markup (a ++ 91%N :: P.w_self n ps ++ b) =
+    Some (a ++ b, [{| aname := n; apos := Z.of_nat (length a); alen := 0; asrc := src;
+                      aprops := props_map (P.pvalues ps) |}]).
+Proof. exact TR.self_closing_trimwhitespace_false. Qed.
+Print Assumptions C13_self_closing_trimwhitespace_false.
+
+Example C13_trimwhitespace_false_example :
+  let ps := [(STR "trimwhitespace", P.PVBool false)] in
+  get_prop (P.pvalues ps) (STR "trimwhitespace") = Some (MBool false) /\
+  option_map (fun r => (fst r, map (fun a => (aname a, apos a, alen a)) (snd r)))
+    (parse_markup (STR "ab " ++ 91%N :: P.w_self (STR "pause") ps ++ STR "  cd")) =
+  Some (STR "ab   cd", [(STR "pause", 3, 0)]%Z).
+Proof. split; vm_compute; reflexivity. Qed.
